@@ -44,3 +44,12 @@ class SleepyFitness(CountingFitness):
         import time
         time.sleep(((individual.values[0] * 7) % 5) * 0.001)
         return super().__call__(individual)
+
+
+class FaultyFitness(CountingFitness):
+    """raises for genome codes that are 13 modulo 1000 (a fault local optimisation cannot cure: it adds 1000)"""
+
+    def __call__(self, individual):
+        if individual.values[0] % 1000 == 13:
+            raise ZeroDivisionError("fitness of genome %r" % (individual.values[0],))
+        return super().__call__(individual)
